@@ -99,4 +99,9 @@ CLAIMED['C02'] = {
     'note': PROOF_NOTE + 'Interpolant homogeneity, uniqueness of increasing enumerations, linearity of sums and std(cX)=|c|std(X) are assumed.',
     'category': 'proof',
 }
+CLAIMED['C09'] = {
+    'technique': 'deductive: contracts of freq_from_phase (scaled np.gradient), phase_from_freq (running sum), their composition (two-sample average, exact for constant profiles), wrap_phase (range and congruence) and the hilbert branch of frequency_transform (one unwrapped phase feeds frequency and returned phase; shapes; modulus amplitude), scale lemmas over the assumed analytic-signal contracts; VCs from the real source discharged by z3; bounded stand-in: sinusoid grid with calibrated two-sided tolerances, scale factors, round trips',
+    'text': 'Shapes, phase range, frequency = sample-rate-scaled derivative of the unwrapped phase, the freq->phase->freq identity and the scale laws are proved (over assumed contracts of hilbert / angle / unwrap / gradient / cumsum). The accuracy clause for pure sinusoids is numerical analysis of an FFT-based transform in floating point: no contract over uninterpreted functions can express it; it is decided by the bounded stand-in only and reported as not covered by the proof.',
+    'note': PROOF_NOTE + 'Accuracy on sinusoids, nht/quad branches and amplitude_normalise are bounded (calibrated tolerances).',
+}
 PENDING_REASON = {}
